@@ -13,6 +13,8 @@ def run(ctx):
               label="box placement per direction: separated layout + spacing >= 3 + gap >= 1 => disjoint, on side, layer order after truncation")
     ctx.model("MCRender", "NegRender_ns2.cfg", workers=4, expect_violation="Disjoint",
               label="negative self-test: with label spacing 2 truncation can make boxes touch")
+    ctx.theorems("ApaRender", ["Disjoint", "Side", "LayerOrder"], neg=("InitNeg", "Disjoint"),
+                 label="the same theorem for unbounded integers in units of 1/1000 (every position, width, thickness, layer, gap); with spacing 2 a counterexample")
     recs, errors = tl.gather(ctx, ns_min=3)
     ctx.extra["exports_that_raised"] = len(errors)
     tl.check(ctx, "DrawC08.cfg", recs, "C08_")
